@@ -13,7 +13,7 @@ LEVEL_TEXT = {
     "C03": ("exploration", "§4 C03, §11.4", "Filter state machine driven with seeded reply histories (ties, NaN, inf, tolerance edge) against a plain-list reference model after every operation, plus end-to-end world clauses (feasible first, not dominated, merit with the final penalty, finite filter_size retention model, returned x produced the returned values, exact decisions at feasibility_tol = 0)."),
     "C05": ("fault_enumeration", "§4 C05, §11.4", "Budget exhaustion (maxfev=k, maxiter=k) injected at every evaluation index of each sampled run (up to the tier cap, always around nb_points); counters and histories compared with the simulator's ground-truth history, also for re-entrant calls and for objectives that reuse their output buffer."),
     "C06": ("exploration", "§4 C06, §11.4", "Exactly-once / never-behind-the-scenes grammar over the recorded call history of every peer, in faulted worlds with 1-3 nonlinear constraint objects, including functions that overwrite their input, stated extra arguments, verbose mode and re-entrant variants."),
-    "C07": ("exploration", "§4 C07, §11.4", "Every ending is made to happen by the simulator (stop@k, target - also first met at infeasible points -, budgets, all-fixed, inconsistent bounds, eigh faults) and the reported status is checked against that ground truth (only-when clauses, true violation of the returned point) and against the documentation table parsed at run time."),
+    "C07": ("exploration", "§4 C07, §11.4", "Every ending is made to happen by the simulator (stop@k, target - also first met at infeasible points -, budgets, all-fixed, inconsistent bounds, eigh faults, and crash worlds in which a user function raises at evaluation k) and the reported status is checked against that ground truth (only-when clauses, true violation of the returned point) and against the documentation table parsed at run time."),
     "C08": ("exploration", "§4 C08, §11.4", "Widest fault mix (NaN/inf/huge replies one-shot, sticky and regional; every kind at every evaluation index for one statement in 16; eigh failures; hostile callbacks; integer / boolean replies; functions that raise when handed internal variables; degenerate bounds): minimize must return a well-formed result, never raise, never label an undefined result successful; bounded progress by a line-counting tracer on a sample and on watchdog hits."),
     "C09": ("fault_enumeration", "§4 C09, §11.4", "A stop request (callback StopIteration, target, feasibility, target+tolerance pair at every SOC evaluation) is injected at every evaluation index of each sampled run up to the tier cap, labelled by step kind; forward, converse and result clauses over the history, the returned point judged by its true violation."),
     "C10": ("exploration", "§4 C10, §11.3", "Differential simulation: paired worlds under one point-keyed fault plan with memory layout normalised; bitwise trace equality for syntactic restatements, faithfulness of the internal linear data + no-leak (explicit restatement built from the solver's own arrays) for fixed variables and scaling."),
